@@ -441,4 +441,5 @@ def scenario(rng, sched="scripted", nmax=6, sess_max=7, horizon=25, kinds=("EVSE
         "start": start,
         "network": net, "sessions": sessions, "recompute": rec, "scheduler": sd,
         "np_seed": rng.randrange(1 << 30),
+        "verbose": rng.random() < 0.15,
     }
